@@ -6,10 +6,10 @@ Output: one line  @@<json>.
 A session builds real BIOGEME objects over a tiny database whose log likelihood is a designed
 function of the parameters
 
-    f(b) = - sum_k W_k (b_k - t_k)^2  -  [b_1 / (b_1 * c1)]
+    f(b) = - sum_k W_k (b_k - t_k)^2  -  [(b_1 - 0.1) / ((b_1 - 0.1) * c1)]
 
-(the bracketed term is constant for b_1 != 0; at b_1 == 0 the engine returns a finite f and a
-non-finite gradient), so that the harness dictates improving / worsening / equal / non-finite
+(the bracketed term is constant for b_1 != 0.1 -- c1 holds powers of two --; at b_1 == 0.1 the engine
+returns a finite f and a non-finite gradient), so that the harness dictates improving / worsening / equal / non-finite
 evaluations by its choice of x.  Everything is written into a private scratch directory.
 """
 import json
@@ -85,7 +85,9 @@ def build(sess, init=None):
         term = (b - t) * (b - t) * c
         ll = -term if ll is None else ll - term
     if sess.get('div', True):
-        ll = ll - betas[0] / (betas[0] * Variable('c1'))
+        # singular exactly at b_1 == 0.1 (a non-dyadic double no optimiser step lands on)
+        d0 = betas[0] - 0.1
+        ll = ll - d0 / (d0 * Variable('c1'))
     B = bio.BIOGEME(d, ll)
     B.modelName = sess['model']
     B.save_iterations = bool(sess['save'])
